@@ -1,7 +1,454 @@
-//! C04 — not implemented yet.
-use vmon::report::Args;
+//! C04 — no lost updates: two committed concurrent transactions never both modify the same row.
+//!
+//! Generator: pairs / triples of delete, update (RewriteRows), merge_insert (full schema, upsert or
+//! update-only) and partial-schema merge_insert (RewriteColumns) over id sets with a controlled
+//! overlap class, 1-4 fragments, stable row ids on/off, same / different read versions, conflict
+//! retries disabled (mode a) or default (mode b), every commit order (ActorOrder permutations)
+//! plus uniform / PCT / round-robin schedules at storage-call granularity.
+//!
+//! Oracle:
+//!  (a) retries disabled => each op computed its row set exactly once, at its handle's version:
+//!      two Ok ops that were concurrent must have disjoint affected id sets;
+//!  (b) always: every committed version equals strict serial replay (no id twice, no deleted row
+//!      present, no stale read-modify-write value), an op that failed has no committed version;
+//!  (c) a failing delete/update/merge_insert fails with a conflict class.
 
-pub fn run(_args: &Args) -> i32 {
-    eprintln!("HARNESS-ERROR C04 not implemented");
-    2
+use crate::engine::*;
+use serde_json::json;
+use std::collections::BTreeSet;
+use std::time::Duration;
+use vmon::prng::Rng;
+use vmon::report::{Args, Report};
+use vmon::table::IdAlloc;
+
+const OVERLAPS: [&str; 5] = ["disjoint", "one_row", "partial", "whole_fragment", "spanning"];
+
+fn pick_kind(rng: &mut Rng) -> &'static str {
+    *rng.pick_weighted(&[
+        (4, "delete"),
+        (4, "update"),
+        (2, "merge_update"),
+        (2, "merge_upsert"),
+        (2, "merge_col"),
+    ])
 }
+
+/// id sets (A, B) for the first two ops by overlap class, over `frags` x `rpf` initial rows
+fn overlap_sets(rng: &mut Rng, class: &str, frags: usize, rpf: usize) -> (Vec<i64>, Vec<i64>, bool, bool) {
+    let n = (frags * rpf) as i64;
+    let rpf = rpf as i64;
+    let frag_ids = |f: i64| -> Vec<i64> { (f * rpf..(f + 1) * rpf).collect() };
+    let sample = |rng: &mut Rng, from: &[i64], k: usize| -> Vec<i64> {
+        let idx = rng.sample_indices(from.len(), k.min(from.len()));
+        let mut v: Vec<i64> = idx.into_iter().map(|i| from[i]).collect();
+        v.sort();
+        v
+    };
+    let all: Vec<i64> = (0..n).collect();
+    // (a_range, b_range): render as a range predicate when the set is contiguous
+    match class {
+        "disjoint" => {
+            // same fragment or different fragments
+            let a_pool: Vec<i64> = if rng.bool() { frag_ids(rng.below(frags as u64) as i64) } else { all.clone() };
+            let ka = rng.urange(1, (a_pool.len() / 2).max(1));
+            let a = sample(rng, &a_pool, ka);
+            let rest: Vec<i64> = all.iter().copied().filter(|i| !a.contains(i)).collect();
+            let b_pool: Vec<i64> = if rng.bool() {
+                let f = a[0] / rpf;
+                let same: Vec<i64> = rest.iter().copied().filter(|i| i / rpf == f).collect();
+                if same.is_empty() { rest.clone() } else { same }
+            } else {
+                rest.clone()
+            };
+            let kb = rng.urange(1, b_pool.len().min(4).max(1));
+            let b = sample(rng, &b_pool, kb);
+            (a, b, false, false)
+        }
+        "one_row" => {
+            let shared = rng.below(n as u64) as i64;
+            let rest: Vec<i64> = all.iter().copied().filter(|i| *i != shared).collect();
+            let ka = rng.urange(0, 3);
+            let mut a = sample(rng, &rest, ka);
+            let rest2: Vec<i64> = rest.iter().copied().filter(|i| !a.contains(i)).collect();
+            let kb = rng.urange(0, 3);
+            let mut b = sample(rng, &rest2, kb);
+            a.push(shared);
+            b.push(shared);
+            a.sort();
+            b.sort();
+            (a, b, false, false)
+        }
+        "partial" => {
+            let ks = rng.urange(2, 3.min(n as usize));
+            let shared = sample(rng, &all, ks);
+            let rest: Vec<i64> = all.iter().copied().filter(|i| !shared.contains(i)).collect();
+            let ka = rng.urange(1, 3);
+            let mut a = sample(rng, &rest, ka);
+            let rest2: Vec<i64> = rest.iter().copied().filter(|i| !a.contains(i)).collect();
+            let kb = rng.urange(1, 3);
+            let mut b = sample(rng, &rest2, kb);
+            a.extend(&shared);
+            b.extend(&shared);
+            a.sort();
+            b.sort();
+            (a, b, false, false)
+        }
+        "whole_fragment" => {
+            let f = rng.below(frags as u64) as i64;
+            let a = frag_ids(f);
+            let b = match rng.below(4) {
+                0 => frag_ids(f),                                       // same whole fragment
+                1 => { let k = rng.urange(1, 3); sample(rng, &a, k) }   // part of it
+                2 => {                                                  // part of it + elsewhere
+                    let mut b = sample(rng, &a, 1);
+                    let k = rng.urange(1, 2);
+                    b.extend(sample(rng, &all, k));
+                    b.sort();
+                    b.dedup();
+                    b
+                }
+                _ => {                                                  // another fragment entirely (disjoint)
+                    let g = (f + 1) % frags as i64;
+                    if g == f { sample(rng, &a, 1) } else { frag_ids(g) }
+                }
+            };
+            let b_range = b.len() as i64 == rpf && b.windows(2).all(|w| w[1] == w[0] + 1);
+            (a, b, true, b_range)
+        }
+        _ => {
+            // spanning: a contiguous range crossing at least one fragment boundary
+            let lo = rng.below((n - 1).max(1) as u64) as i64;
+            let boundary = ((lo / rpf) + 1) * rpf;
+            let hi = if boundary >= n { n } else { (boundary + 1 + rng.below((n - boundary) as u64) as i64).min(n) };
+            let a: Vec<i64> = (lo..hi).collect();
+            let b = if rng.bool() {
+                let k = rng.urange(1, 3);
+                sample(rng, &a, k)
+            } else {
+                let mut b = sample(rng, &a, 1);
+                let k = rng.urange(1, 3);
+                b.extend(sample(rng, &all, k));
+                b.sort();
+                b.dedup();
+                b
+            };
+            (a, b, true, false)
+        }
+    }
+}
+
+fn make_op(rng: &mut Rng, kind: &str, ids: Vec<i64>, as_range: bool, retries: Option<u32>, alloc: &mut IdAlloc) -> Op {
+    let pred = if as_range && !ids.is_empty() && ids.windows(2).all(|w| w[1] == w[0] + 1) {
+        IdPred::Range(ids[0], ids[ids.len() - 1] + 1)
+    } else {
+        IdPred::In(ids.clone())
+    };
+    match kind {
+        "delete" => Op::Delete { pred, retries },
+        "update" => Op::Update {
+            pred,
+            add: rng.range(1, 9),
+            set_w: if rng.chance(1, 3) { Some(rng.range(10, 20) as i32) } else { None },
+            retries,
+        },
+        "merge_update" => Op::Merge { ids, salt: rng.next_u64() | 1, insert: false, retries },
+        "merge_upsert" => {
+            let mut ids = ids;
+            ids.extend(alloc.take(rng.urange(0, 2)));
+            Op::Merge { ids, salt: rng.next_u64() | 1, insert: true, retries }
+        }
+        _ => Op::MergeCol {
+            ids,
+            col: if rng.bool() { "v" } else { "w" },
+            salt: rng.next_u64() | 1,
+            retries,
+        },
+    }
+}
+
+/// Keep the workload phantom-free (see NOTES.md): an upsert must not re-insert a key that another
+/// op deletes when a third op addresses the same key.
+pub fn sanitize_phantoms(pre_ops: &[Op], actors: &mut [(u64, Op)], n_initial: i64) {
+    let snapshot: Vec<Op> = pre_ops.iter().cloned().chain(actors.iter().map(|a| a.1.clone())).collect();
+    for (_, op) in actors.iter_mut() {
+        if let Op::Merge { ids, insert: true, .. } = op {
+            ids.retain(|id| {
+                if *id >= n_initial {
+                    return true; // fresh
+                }
+                let touching = snapshot.iter().filter(|o| o.addresses(*id)).count();
+                let deleter = snapshot
+                    .iter()
+                    .any(|o| matches!(o, Op::Delete { pred, .. } if pred.matches(*id)));
+                !(deleter && touching >= 3)
+            });
+            if ids.is_empty() {
+                ids.push(n_initial + (1 << 39)); // a fresh key nobody else uses
+            }
+        }
+    }
+}
+
+pub fn gen_case(seed: u64, idx: u64, thorough: bool) -> (HistorySpec, String, bool) {
+    let mut rng = Rng::for_case(seed, idx);
+    let frags = rng.urange(1, 4);
+    let rpf = *rng.pick(&[4usize, 6, 10]);
+    let n_ops = if rng.chance(2, 3) { 2 } else { 3 };
+    let class = OVERLAPS[(idx % OVERLAPS.len() as u64) as usize];
+    let no_retry = rng.chance(1, 2);
+    let (a, b, a_range, b_range) = overlap_sets(&mut rng, class, frags, rpf);
+    let n = (frags * rpf) as i64;
+
+    // optional setup versions so that handles can start from different read versions
+    let mut pre_ops = vec![];
+    let mut pre_alloc = IdAlloc::new(8);
+    if rng.chance(1, 2) {
+        match rng.below(3) {
+            0 => pre_ops.push(Op::Append { ids: pre_alloc.take(rng.urange(1, 3)), salt: 77 }),
+            1 => pre_ops.push(Op::Delete { pred: IdPred::In(vec![rng.below(n as u64) as i64]), retries: None }),
+            _ => pre_ops.push(Op::Update { pred: IdPred::In(vec![rng.below(n as u64) as i64]), add: 100, set_w: None, retries: None }),
+        }
+    }
+    let base = 1 + pre_ops.len() as u64;
+    let mut actors = vec![];
+    for k in 0..n_ops {
+        let kind = pick_kind(&mut rng);
+        let mut alloc = IdAlloc::new(k + 1);
+        let retries = if no_retry { Some(0) } else if rng.chance(1, 4) { Some(2) } else { None };
+        let (ids, as_range) = match k {
+            0 => (a.clone(), a_range),
+            1 => (b.clone(), b_range),
+            _ => {
+                let kk = rng.urange(1, 4);
+                let mut v: Vec<i64> = rng.sample_indices(n as usize, kk).into_iter().map(|x| x as i64).collect();
+                v.sort();
+                (v, false)
+            }
+        };
+        // swap roles sometimes so that the "big" set is not always actor 1
+        let op = make_op(&mut rng, kind, ids, as_range, retries, &mut alloc);
+        let rv = if rng.chance(1, 3) { rng.range(1, base as i64) as u64 } else { base };
+        actors.push((rv, op));
+    }
+    if rng.bool() {
+        actors.swap(0, 1);
+    }
+    sanitize_phantoms(&pre_ops, &mut actors, n);
+    let perms = permutations(n_ops);
+    let strategy = match idx / OVERLAPS.len() as u64 % 4 {
+        0 => StratSpec::ActorOrder(perms[rng.usize_below(perms.len())].clone()),
+        1 => StratSpec::Uniform(rng.next_u64()),
+        2 => StratSpec::Pct(rng.next_u64(), rng.urange(1, 3)),
+        _ => {
+            if thorough || rng.bool() {
+                StratSpec::RoundRobin
+            } else {
+                StratSpec::Uniform(rng.next_u64())
+            }
+        }
+    };
+    let spec = HistorySpec {
+        name: format!("c04-{seed}-{idx}"),
+        stable_row_ids: rng.bool(),
+        v2_manifest_paths: rng.chance(1, 4),
+        frags,
+        rows_per_frag: rpf,
+        pre_ops,
+        actors,
+        strategy,
+    };
+    (spec, class.to_string(), no_retry)
+}
+
+/// (a): with retries disabled, concurrent Ok ops must have disjoint affected sets.
+pub fn check_disjoint_ok(out: &HistoryOutcome, sc: &SerialCheck) -> Vec<Finding> {
+    let mut f = vec![];
+    let committed: Vec<(usize, u64)> = sc.commit_order.iter().map(|(v, i)| (*i, *v)).collect();
+    let affected = |i: usize| -> Option<BTreeSet<i64>> {
+        let r = &out.results[i];
+        if r.op.retries() != Some(0) || !r.op.is_row_mutation() || r.result.is_err() {
+            return None;
+        }
+        let mut m = sc.states.get(&r.read_version)?.clone();
+        m.apply(&r.op, &sc.states).ok().map(|e| e.modified)
+    };
+    for x in 0..committed.len() {
+        for y in x + 1..committed.len() {
+            let (i, ci) = committed[x];
+            let (j, cj) = committed[y];
+            let (ri, rj) = (out.results[i].read_version, out.results[j].read_version);
+            if !(ri < cj && rj < ci) {
+                continue; // not concurrent
+            }
+            if let (Some(ai), Some(aj)) = (affected(i), affected(j)) {
+                let both: Vec<i64> = ai.intersection(&aj).copied().collect();
+                if !both.is_empty() {
+                    let mut kinds = [out.results[i].op.kind(), out.results[j].op.kind()];
+                    kinds.sort();
+                    f.push(Finding {
+                        signature: format!("both-committed-same-row:{}+{}", kinds[0], kinds[1]),
+                        what: format!(
+                            "two concurrent transactions without retries both returned Ok (v{ci}, v{cj}) and both modified ids {both:?}"
+                        ),
+                        detail: json!({"ids": both, "a": out.results[i].describe(), "b": out.results[j].describe()}),
+                    });
+                }
+            }
+        }
+    }
+    f
+}
+
+pub fn check_error_classes(out: &HistoryOutcome) -> Vec<Finding> {
+    let mut f = vec![];
+    for r in &out.results {
+        if let Err((c, m)) = &r.result {
+            if r.op.is_row_mutation() && !is_conflict_class(c) {
+                f.push(Finding {
+                    signature: format!("loser-fails-with-non-conflict-error:{}:{}", r.op.kind(), c),
+                    what: format!("{} failed with {c} instead of a commit conflict: {}", r.op.kind(), m.chars().take(200).collect::<String>()),
+                    detail: json!({"op": r.describe()}),
+                });
+            }
+        }
+    }
+    f
+}
+
+pub fn witness(out: &HistoryOutcome, seed: u64, idx: u64, extra: serde_json::Value, f: &Finding) -> serde_json::Value {
+    json!({
+        "seed": seed, "case_index": idx, "history": out.spec.describe(),
+        "results": out.results.iter().map(|r| r.describe()).collect::<Vec<_>>(),
+        "base_version": out.base_version,
+        "interleaving": out.sched.brief(200),
+        "class": extra,
+        "finding": {"signature": f.signature, "what": f.what, "detail": f.detail},
+    })
+}
+
+async fn one_case(report: &Report, seed: u64, idx: u64, thorough: bool) {
+    let (spec, class, no_retry) = gen_case(seed, idx, thorough);
+    let out = match run_history(&spec, Duration::from_secs(40)).await {
+        Ok(o) => o,
+        Err(e) => {
+            report.count("setup_failures", 1);
+            if report.counter("setup_failures") > 20 {
+                report.harness_error(&format!("setup failed repeatedly: {e}"));
+            }
+            return;
+        }
+    };
+    if out.sched.watchdog_fired {
+        report.inconclusive(&format!("watchdog fired in case {idx}"));
+        report.count("watchdog_fired", 1);
+        report.case(None);
+        return;
+    }
+    let facts = log_facts(&out.events);
+    let sc = check_serial(&out, None).await;
+    if let Some(e) = &sc.harness_error {
+        report.harness_error(&format!("case {idx}: {e}"));
+        return;
+    }
+    count_history(report, &out, &facts);
+    report.count("rows_compared", sc.rows_compared);
+    report.count("versions_compared", sc.versions_compared);
+    report.count(&format!("overlap_{class}"), 1);
+    report.count(if no_retry { "mode_a_no_retries" } else { "mode_b_retries" }, 1);
+    let mut findings = sc.findings.clone();
+    let a = check_disjoint_ok(&out, &sc);
+    if no_retry {
+        let concurrent_ok_pairs = sc.commit_order.len().saturating_sub(1) as u64;
+        report.count("mode_a_ok_pairs_checked", concurrent_ok_pairs);
+    }
+    findings.extend(a);
+    findings.extend(check_error_classes(&out));
+    for f in &findings {
+        report.violation(&f.signature, &f.what, witness(&out, seed, idx, json!({"overlap": class, "no_retry": no_retry}), f));
+    }
+    let nontrivial = exercised_concurrency(&out);
+    report.case(if nontrivial { Some(shape_hash(&out)) } else { None });
+    note_interleaving(&out, &facts);
+    if nontrivial && report.want_sample() {
+        report.sample(json!({
+            "case": idx, "overlap": class, "no_retry": no_retry,
+            "history": out.spec.describe(),
+            "results": out.results.iter().map(|r| r.describe()).collect::<Vec<_>>(),
+            "commit_order": sc.commit_order.iter().map(|(v,i)| json!({"version": v, "actor": out.results[*i].actor})).collect::<Vec<_>>(),
+            "interleaving_head": out.sched.brief(25),
+        }));
+    }
+}
+
+pub fn run(args: &Args) -> i32 {
+    if args.extra.contains_key("selftest") {
+        return selftest(args);
+    }
+    let report = Report::new(
+        args,
+        "exploration",
+        "seeded pairs/triples of delete/update/merge_insert over id sets with overlap class {disjoint,1 row,partial,whole fragment,spanning} x retries {0,default} x schedule {every actor order, uniform, PCT, round robin}; a case is non-trivial iff an op committed over a concurrent transaction or failed with a conflict; distinct = hash(ops, read versions, results, released storage-call sequence)",
+        (60, 900),
+    )
+    .with_min_nontrivial(50);
+    let thorough = args.tier == vmon::report::Tier::Thorough;
+    let max_cases = args.tier.pick(3_000, 200_000);
+    let seed = args.seed;
+    if let Some(path) = &args.replay {
+        return replay(args, &report, path);
+    }
+    run_parallel(&report, 16, max_cases, |i| one_case(&report, seed, i, thorough));
+    publish_interleavings(&report);
+    report.finish()
+}
+
+fn replay(args: &Args, report: &Report, path: &str) -> i32 {
+    let Ok(txt) = std::fs::read_to_string(path) else {
+        report.harness_error("cannot read replay file");
+        return report.finish();
+    };
+    let v: serde_json::Value = serde_json::from_str(&txt).unwrap_or_default();
+    let seed = v["witness"]["seed"].as_u64().unwrap_or(args.seed);
+    let idx = v["witness"]["case_index"].as_u64().unwrap_or(0);
+    let thorough = v["tier"].as_str() == Some("thorough");
+    let rt = tokio::runtime::Builder::new_current_thread().enable_all().build().unwrap();
+    for _ in 0..10 {
+        rt.block_on(one_case(report, seed, idx, thorough));
+    }
+    report.finish()
+}
+
+/// Selftest: damage the observation of the final version and require the oracle to fire.
+fn selftest(args: &Args) -> i32 {
+    let rt = tokio::runtime::Builder::new_current_thread().enable_all().build().unwrap();
+    let mut fired = [0u32; 3];
+    let mut tried = [0u32; 3];
+    for idx in 0..30u64 {
+        let (spec, _, _) = gen_case(args.seed, idx, false);
+        let Ok(out) = rt.block_on(run_history(&spec, Duration::from_secs(40))) else { continue };
+        let clean = rt.block_on(check_serial(&out, None));
+        if !clean.findings.is_empty() || clean.harness_error.is_some() || clean.commit_order.is_empty() {
+            continue;
+        }
+        let m = (idx % 3) as usize;
+        let corrupt: Box<dyn Fn(&mut Observed) + Sync> = match m {
+            0 => Box::new(|o: &mut Observed| { o.rows.pop(); }),
+            1 => Box::new(|o: &mut Observed| { if let Some(r) = o.rows.first().cloned() { o.rows.push(r); } }),
+            _ => Box::new(|o: &mut Observed| {
+                if let Some(r) = o.rows.first_mut() {
+                    if let vmon::table::Cell::Int(x) = r[1] { r[1] = vmon::table::Cell::Int(x - 1); }
+                }
+            }),
+        };
+        let sc = rt.block_on(check_serial(&out, Some(&*corrupt)));
+        tried[m] += 1;
+        // an empty final table cannot lose a row / change a value
+        let empty = clean.states.get(&clean.final_version).map(|s| s.rows.is_empty()).unwrap_or(false);
+        if !sc.findings.is_empty() || empty {
+            fired[m] += 1;
+        }
+    }
+    println!("SELFTEST C04 dropped-row {}/{} duplicated-row {}/{} stale-value {}/{}", fired[0], tried[0], fired[1], tried[1], fired[2], tried[2]);
+    if fired == tried && tried.iter().all(|t| *t > 0) { 0 } else { 2 }
+}
+
